@@ -43,7 +43,7 @@ macro_rules! sort_obs {
     }};
 }
 
-fn sort_clause(ws: &[u32]) -> Result<(), String> {
+pub fn sort_clause(ws: &[u32]) -> Result<(), String> {
     let (sorted, untouched, inplace, twice) = match ws.len() {
         2 => sort_obs!(Two, 2, ws),
         3 => sort_obs!(Three, 3, ws),
